@@ -189,6 +189,53 @@ def main_c09_c10(prop, tier):
                 records += pl.pmap(onegrp, groups)
                 decls = decls + gdecls
                 byid.update({d['id']: d for d in gdecls})
+            # several FILES per invocation (kessoku k0.go k1.go ...): a refused file makes the invocation fail wherever it
+            # stands on the command line, and its own output file is left alone
+            fgroups = []
+            for g in range(6 if tier == 'quick' else 30):
+                k = rng.choice([2, 3])
+                members = [rng.choice(valid) for _ in range(k)]
+                badpos = -1
+                if g % 3 != 2 and bad:
+                    badpos = rng.randrange(k)
+                    members[badpos] = rng.choice(bad)
+                if len({m['id'] for m in members}) < k:
+                    continue
+                grp = ds.make_group('f%03d' % g, members)
+                fgroups.append((grp, badpos))
+            if fgroups:
+                froot = w.path('multifile')
+                declgen.write_module(froot, repo=pl.REPO)
+
+                def onefiles(t):
+                    grp, badpos = t
+                    d_ = os.path.join(froot, grp[0]['group'])
+                    declgen.write_files(grp, d_)
+                    files = ['k%d.go' % i for i in range(len(grp))]
+                    watch = 'k%d_band.go' % (badpos if badpos >= 0 else 0)
+                    outp = os.path.join(d_, watch)
+                    pre_ = badpos >= 0 and badpos % 2 == 0
+                    if pre_:
+                        open(outp, 'w').write(STALE)
+                        os.utime(outp, (1600000000, 1600000000))
+                    before = (os.path.exists(outp), sha(outp), os.stat(outp).st_mtime_ns if os.path.exists(outp) else 0)
+                    rc, so, se = pl.run_generator(cli, d_, files=tuple(files))
+                    after = (os.path.exists(outp), sha(outp), os.stat(outp).st_mtime_ns if os.path.exists(outp) else 0)
+                    out = 'absent' if not after[0] and not before[0] else 'created' if not before[0] else 'unchanged' if after == before else 'changed'
+                    msg = '\n'.join(ln for ln in se.splitlines() if 'level=INFO' not in ln)
+                    types_ = [t_ for d in grp for t_ in d['types']]
+                    named = sorted({t_ for t_ in types_ if re.search(r'(?<![A-Za-z0-9_])%s(?![A-Za-z0-9_])' % re.escape(t_), msg)})
+                    funcs = []
+                    if rc == 0:
+                        for i in range(len(grp)):
+                            fo = funcs_of(os.path.join(d_, 'k%d_band.go' % i)) if os.path.exists(os.path.join(d_, 'k%d_band.go' % i)) else []
+                            funcs += fo or []
+                    return {'ev': 'Run', 'run': grp[0]['group'], 'decls': [d['id'] for d in grp], 'exit': rc, 'named': named, 'out': out, 'funcs': funcs,
+                            'src': grp[0]['group'], 'outhash': after[1], 'stderr': msg[-600:]}
+                records += pl.pmap(onefiles, fgroups)
+                fdecls = [d for grp, _ in fgroups for d in grp]
+                decls = decls + fdecls
+                byid.update({d['id']: d for d in fdecls})
             vj, st = tlc_gen(w, decls, records)
             # the oracle itself: Decl.tla against the Python reference on this very batch
             chk = decl_crosscheck(w, decls)
